@@ -46,10 +46,10 @@ SPEC = dict(
          'chains to depth 1023, exactly 127/128/254..257 cells, payload exactly 126..129/254..257/32767/32768/65535/65536 bytes, one 3000-cell DAG '
          '(thorough: 65535/65536/65537/70000 cells); each x 6 option sets; distinct = distinct (dag, root, option set); non-trivial = more than one cell or non-empty data',
     trusted_base=['Spec/Boc.lean transcribes boc.tlb serialized_boc#b5ee9c72 + the reference node\'s checks (independent of the library\'s parser)',
-                  'Model/BocEmit.lean mirrors Cell.order / Cell.serialize / Cell.to_boc by hand',
+                  'Model/BocEmit.lean: Cell.order / Cell.serialize / Cell.to_boc are proved equal to the functions regenerated from cell.py on every run (c04_src_*; trusted: translator pydict.py / pyobj.py / pybytes.py, the declared interface in bocemit.py, PyDict.lean)',
                   'harness/boc_strict.py: the same strict reader in Python (replays do not depend on the driver)',
                   'SHA-256 is an abstract parameter H in all theorems; the driver uses lean/TonVerif/Sha256.lean'],
-    assumptions=['correspondence is sampled differential testing of model vs library',
+    assumptions=['correspondence is sampled differential testing of model vs library (in addition to the source tie of the emitter)',
                  'Python dict = insertion-ordered map keyed by Cell.__hash__/__eq__ (modelled by a hash set/map over pyHash + key list)',
                  'strict reader rejects stored-hash (h=1) and absent cells, which the emitter never writes'],
 )
